@@ -47,3 +47,12 @@ type vlogger struct{}
 
 func (vlogger) Printf(msg string, a ...any)          {}
 func (vlogger) Output(calldepth int, s string) error { return nil }
+
+// symTarget is a symbolic symlink target without NUL bytes (the kernel rejects those).
+func symTarget(n int) string {
+	b := nd_bytes(n)
+	for _, c := range b {
+		vassume(c != 0)
+	}
+	return string(b)
+}
